@@ -307,6 +307,8 @@ const TEMPLATES: &[&[(&str, &[&str])]] = &[
 
 /// right-nullable shapes (for right-nulled table cells)
 pub const RN_TEMPLATES: &[usize] = &[5, 8, 9, 10, 12, 13, 14, 17, 23, 24, 26];
+/// the same, one by one (for enumeration)
+pub const RN_SINGLE: &[&[usize]] = &[&[5], &[8], &[9], &[10], &[12], &[13], &[14], &[17], &[23], &[24], &[26]];
 
 fn build_template(raw: &RawG, pool: &[TermSpec], set: &[usize]) -> GrammarSpec {
     let tpl = if set.is_empty() { TEMPLATES[pick(raw.template, TEMPLATES.len())] } else { TEMPLATES[set[pick(raw.template, set.len())]] };
@@ -690,14 +692,14 @@ pub fn sprinkle_meta(spec: &mut GrammarSpec, tape: &mut Cursor, term_assoc: bool
 /// Production priorities that thin out the cells of a right-nulled (GLR) table: EMPTY
 /// alternatives get a low priority (so the reduction of a right-nullable production survives
 /// alone against the empty reductions of its tail), other alternatives occasionally a high one.
-pub fn prioritise_against_empty(spec: &mut GrammarSpec, tape: &mut Cursor) {
+pub fn prioritise_against_empty(spec: &mut GrammarSpec, tape: &mut Cursor, all_empty_low: bool) {
     for r in spec.rules.iter_mut() {
         for a in r.alts.iter_mut() {
             if a.syms.is_empty() {
-                if tape.pick(4) != 0 {
+                if all_empty_low || tape.pick(4) != 0 {
                     a.meta.prio = Some(5);
                 }
-            } else if tape.pick(6) == 0 {
+            } else if !all_empty_low && tape.pick(6) == 0 {
                 a.meta.prio = Some(15);
             }
         }
@@ -1391,9 +1393,9 @@ pub fn build_rec(tape: &[u16]) -> GrammarSpec {
     // is rule 2 + k
     let n = |k: usize| SymUse::plain(Sym::N(2 + k));
     let mut body: Vec<(String, Option<String>, Vec<AltSpec>)> = vec![];
-    let shape = c.pick(5);
+    let shape = c.pick(7);
     match shape {
-        0 => {
+        0..=2 => {
             // element <-> hand written @vec rule
             let elem_first = c.pick(2) == 0;
             let (ei, li) = if elem_first { (0, 1) } else { (1, 0) };
@@ -1440,7 +1442,7 @@ pub fn build_rec(tape: &[u16]) -> GrammarSpec {
                 body.push(e);
             }
         }
-        1 => {
+        3 => {
             // `?*+` sugar that refers back to its own rule
             let (op, sep) = match c.pick(5) {
                 0 => (RepOp::Plus, None),
@@ -1462,7 +1464,7 @@ pub fn build_rec(tape: &[u16]) -> GrammarSpec {
             }
             body.push(("Node".to_string(), None, alts));
         }
-        2 => {
+        4 => {
             // struct with an optional reference to itself (sugar or an explicit optional rule)
             if c.pick(2) == 0 {
                 let mut u = n(0);
@@ -1482,7 +1484,7 @@ pub fn build_rec(tape: &[u16]) -> GrammarSpec {
                 }
             }
         }
-        3 => {
+        5 => {
             // optional reference to an ancestor through an intermediate rule
             let mut u = n(0);
             u.rep = Some((RepOp::Opt, None));
